@@ -45,10 +45,17 @@ def materialise(case):
     # own stream: in one case in eight the reference lists hold reference-like objects of another class (annotations accept
     # any object; the library only compares and copies them)
     rd = gen.rng_for(case["seed"], PROP, "duck", case["enzyme"], case["i"])
-    if rd.random() < 0.125:
+    u = rd.random()
+    if u < 0.125:
         for s in [m["vector"]] + m["modules"]:
             for ref in s.get("refs", []):
                 ref["duck"] = True
+    elif u < 0.3:
+        # Biopython documents Reference.authors as "a big old string, or a list split by author"
+        for s in [m["vector"]] + m["modules"]:
+            for ref in s.get("refs", []):
+                if rd.random() < 0.5:
+                    ref["authors_list"] = True
     return m
 
 
@@ -59,6 +66,10 @@ def worker_init(ctx, tier):
     global _mon
     _mon = asmmon.AssembleMonitor(ctx, [asmmon.make_c10_judge()], snapshot=asmmon.deep_snapshot)
     _mon.install()
+
+
+def geom_k(mat):
+    return refmodel.geometry(gen.enzyme(mat["enzyme"]))[2]
 
 
 def _strip(mat):
@@ -153,6 +164,26 @@ def execute(mat, ctx):
                 ev.assemble(*(em + [M(gen.make_record(dict(mat["modules"][0], id="twin")))]))
         except Exception:
             pass
+    # the record of a module is edited in place between two uses of the same entity: a feature inside its retained fragment
+    # starts citing the record's last reference
+    j0 = next((j for j, ms in enumerate(mat["modules"]) if ms.get("refs")), None)
+    if j0 is not None:
+        ms = mat["modules"][j0]
+        n0 = len(ms["seq"])
+        a0 = (ms["built"]["frag_start_unrotated"] - ms["built"]["rot_left"] + geom_k(mat) + 1) % n0
+        from Bio.SeqFeature import SeqFeature, FeatureLocation
+        if a0 + 2 <= n0 and ms["built"]["frag_len"] > geom_k(mat) + 4:
+            mrecs[j0].features.append(SeqFeature(FeatureLocation(a0, a0 + 2, 1), type="misc_feature",
+                                                 qualifiers={"uid": ["%s.late" % ms["id"]], "citation": ["[%d]" % len(ms["refs"])]}))
+            _mon.tag = {"call": "same-wrappers:after-a-feature-started-citing"}
+            ctx.count("c10_calls_after_record_edit")
+            try:
+                with _w.catch_warnings():
+                    _w.simplefilter("ignore")
+                    ev.assemble(*em, id=mat.get("id", "assembly"), name=mat.get("name", "assembly"))     # judged by the monitor
+            except Exception as e:
+                ctx.violation("assembly-after-record-edit-raises:%s" % type(e).__name__, "after a feature was added to a module record the same entities raised %s: %s" % (type(e).__name__, str(e)[:160]))
+            del mrecs[j0].features[-1]
     # the documented way of refusing leftovers: warnings escalated to errors, with a valid module that takes no part in the chain
     geom = refmodel.geometry(gen.enzyme(mat["enzyme"]))
     used_ov = set(mat["overhangs"]) | {rc(o) for o in mat["overhangs"]}
